@@ -31,6 +31,9 @@ type Case struct {
 	DataWithEOF   bool   `json:"data_with_eof"`
 	Drain         []int  `json:"drain"`
 	Loader        string `json:"loader"`
+	// Std > 0: the source is a *bytes.Reader (seekable, WriterTo, ReaderAt) holding Std-1 unrelated bytes in
+	// front of the input and already advanced past them, as when an image is embedded in a container
+	Std int `json:"std_reader_prefix_plus_1,omitempty"`
 }
 
 func drain(r io.Reader, sizes []int, limit int) (out []byte, err error, stalled bool) {
@@ -73,7 +76,16 @@ func drain(r io.Reader, sizes []int, limit int) (out []byte, err error, stalled 
 // a short-reading source, or truncation strictly inside a structure - the caller knows the latter).
 func check(c Case) (kind, what string, nt bool) {
 	s := &src.Source{Data: c.Data, FaultAt: c.FaultAt, FaultWithData: c.FaultWithData, Sizes: c.Sizes, DataWithEOF: c.DataWithEOF}
-	o := ld.Run(c.Loader, s)
+	var o ld.Outcome
+	if c.Std > 0 {
+		all := append(bytes.Repeat([]byte("CONTAINER-HEADER "), c.Std/17+1)[:c.Std-1], c.Data...)
+		br := bytes.NewReader(all)
+		_, _ = br.Seek(int64(c.Std-1), io.SeekStart)
+		o = ld.Run(c.Loader, br)
+		s.Pos = int64(len(c.Data)) - int64(br.Len())
+	} else {
+		o = ld.Run(c.Loader, s)
+	}
 	k := c.Loader + "/"
 	if o.Panic != "" {
 		return k + "panic", "loader panicked: " + o.Panic, true
@@ -257,6 +269,10 @@ func TestC07(t *testing.T) {
 					}
 					for si, sc := range scheds {
 						dr := drains[(h/7+uint64(si))%uint64(len(drains))]
+						// the same truncated input from a seekable standard reader positioned after a prefix
+						if h%4 == 0 {
+							run(Case{Seed: in.name, Data: in.data[:p], FaultAt: -1, Drain: dr, Loader: loader, Std: 1 + int(h/4%3)*27}, in.in[p])
+						}
 						// truncation at p
 						run(Case{Seed: in.name, Data: in.data[:p], FaultAt: -1, Sizes: sc, DataWithEOF: h%3 == 0, Drain: dr, Loader: loader}, in.in[p])
 						// sticky fault at p
@@ -293,6 +309,9 @@ func TestC07(t *testing.T) {
 		}
 		if rapid.Bool().Draw(rt, "short") {
 			c.Sizes = rapid.SliceOfN(rapid.IntRange(1, 5000), 1, 6).Draw(rt, "sizes")
+		}
+		if c.FaultAt < 0 && rapid.IntRange(0, 3).Draw(rt, "stdreader") == 0 {
+			c.Std = 1 + rapid.IntRange(0, 100).Draw(rt, "prefix")
 		}
 		c.DataWithEOF = rapid.Bool().Draw(rt, "dataeof")
 		c.Drain = rapid.SliceOfN(rapid.SampledFrom([]int{1, 2, 3, 100, 4096, 32768}), 1, 4).Draw(rt, "drain")
